@@ -23,12 +23,17 @@ import (
 	"os"
 	"runtime"
 	"sync"
+	"sync/atomic"
 	"testing"
 	"time"
 )
 
 type c10Step struct {
-	Op      string `json:"op"` // write | frame | expect | user_send | user_shutdown | close
+	// write | frame | expect | user_send | user_shutdown | close |
+	// peer_mute (the peer stops reading what the client writes) |
+	// user_cancel (cancel the context of the named user call, wait until the call returned) |
+	// client_close (c.Close(), wait until the user calls returned)
+	Op      string `json:"op"`
 	Hex     string `json:"hex"`
 	Name    string `json:"name"`
 	Typ     int    `json:"typ"`
@@ -40,6 +45,7 @@ type c10Step struct {
 	PLen    int    `json:"plen"`    // ... or generated (plen, pseed)
 	PSeed   int    `json:"pseed"`
 	NoWait  bool   `json:"nowait"` // frame: do not wait until the client has dispatched it
+	NoExpect bool  `json:"noexpect"` // user_send: do not wait for the peer to see the request (the peer may be mute)
 }
 
 type c10Scenario struct {
@@ -162,11 +168,15 @@ func runC10(sc c10Scenario) c10Result {
 
 	seen := make(chan peerSeen, 1024)
 	var seenMu sync.Mutex
+	var mute uint32
 	go func() {
 		hb := make([]byte, 10)
 		for {
+			if atomic.LoadUint32(&mute) == 1 {
+				return // a peer that no longer reads: client writes block from now on
+			}
 			if _, err := io.ReadFull(peer, hb); err != nil {
-				return
+				return // includes the read deadline used to interrupt a pending Read on peer_mute
 			}
 			typ := int(hb[0]&3)<<8 | int(hb[1])
 			ln := uint32(hb[2])<<24 | uint32(hb[3])<<16 | uint32(hb[4])<<8 | uint32(hb[5])
@@ -187,6 +197,7 @@ func runC10(sc c10Scenario) c10Result {
 	defer cancel()
 	ids := map[string]uint32{}
 	users := map[string]*c10User{}
+	cancels := map[string]context.CancelFunc{}
 	var userOrder []string
 	var uwg sync.WaitGroup
 	connectReturned := false
@@ -221,6 +232,12 @@ func runC10(sc c10Scenario) c10Result {
 				return err == nil
 			case connectErr = <-connErr:
 				connectReturned = true
+				// the write may just have completed (that can be what let Connect return)
+				select {
+				case err := <-werr:
+					return err == nil
+				case <-time.After(20 * time.Millisecond):
+				}
 				// the client has stopped reading; unblock the writer
 				peer.Close()
 				<-werr
@@ -231,14 +248,38 @@ func runC10(sc c10Scenario) c10Result {
 		}
 	}
 
+	waitUsers := func(names []string) {
+		deadline := time.Now().Add(wd)
+		for _, n := range names {
+			if users[n] == nil {
+				continue
+			}
+			for time.Now().Before(deadline) {
+				obs.mu.Lock()
+				done := users[n].Returned
+				obs.mu.Unlock()
+				if done {
+					break
+				}
+				time.Sleep(time.Millisecond)
+			}
+		}
+	}
+
 stepLoop:
 	for si, st := range sc.Steps {
 		switch st.Op {
 		case "write":
+			if res.WriteFailed >= 0 {
+				continue // a blocked write is still pending on the pipe: nothing more can be sent
+			}
 			if !writeAll(pre[si]) && res.WriteFailed < 0 {
 				res.WriteFailed = si
 			}
 		case "frame":
+			if res.WriteFailed >= 0 {
+				continue
+			}
 			b := pre[si]
 			id := st.ID
 			if st.To != "" {
@@ -270,7 +311,11 @@ stepLoop:
 						break waitD // not dispatched (the client may be waiting for more bytes): go on
 					}
 				}
-				time.Sleep(2 * time.Millisecond) // let the awaiting goroutine take its reply
+				if st.To != "" && users[st.To] != nil {
+					waitUsers([]string{st.To}) // let the awaiting call take its reply before the script goes on
+				} else {
+					time.Sleep(2 * time.Millisecond)
+				}
 			}
 		case "expect":
 			id, ok := expect(st.Typ)
@@ -284,17 +329,19 @@ stepLoop:
 			users[st.Name] = u
 			userOrder = append(userOrder, st.Name)
 			uwg.Add(1)
+			uctx, ucancel := context.WithCancel(ctx)
+			cancels[st.Name] = ucancel
 			go func(st c10Step) {
 				defer uwg.Done()
 				var r c10User
 				if st.Op == "user_send" {
-					typ, data, err := c.SendMessage(ctx, MessageType(st.Typ), nil)
+					typ, data, err := c.SendMessage(uctx, MessageType(st.Typ), nil)
 					r = c10User{Returned: true, Err: errClass(err), Typ: int(typ), DLen: len(data), MD5: md5hex(data)}
 					if err != nil {
 						r.ErrText = err.Error()
 					}
 				} else {
-					err := c.Shutdown(ctx)
+					err := c.Shutdown(uctx)
 					r = c10User{Returned: true, Err: errClass(err)}
 					if err != nil {
 						r.ErrText = err.Error()
@@ -305,6 +352,10 @@ stepLoop:
 				*u = r
 				obs.mu.Unlock()
 			}(st)
+			if st.NoExpect {
+				time.Sleep(5 * time.Millisecond)
+				continue
+			}
 			want := st.Typ
 			if st.Op == "user_shutdown" {
 				want = 14
@@ -317,6 +368,18 @@ stepLoop:
 			ids[st.Name] = id
 		case "close":
 			peer.Close()
+		case "peer_mute":
+			atomic.StoreUint32(&mute, 1)
+			peer.SetReadDeadline(time.Now()) // interrupt the reader's pending Read
+			time.Sleep(2 * time.Millisecond)
+		case "user_cancel":
+			if cf := cancels[st.Name]; cf != nil {
+				cf()
+			}
+			waitUsers([]string{st.Name})
+		case "client_close":
+			c.Close()
+			waitUsers(userOrder)
 		}
 	}
 
